@@ -79,38 +79,38 @@ theorem hostKids_find {cs : List Node} (hd : nodupB (kindsOf cs) = true) (sel : 
 /-! ### unfolding the hostname machine -/
 
 theorem hostKeyLoop_end {host : Bytes} {cm : Nat} (hp : host.drop cm = []) (path cur k pc R) :
-    hostKeyLoop host path cur k cm pc R = hostAfter host path cur k cm R := by
+    hostKeyLoop false host path cur k cm pc R = hostAfter false host path cur k cm R := by
   rw [hostKeyLoop]; simp only [hp]
 
 theorem hostKeyLoop_keyEnd {host : Bytes} {cm : Nat} {b : UInt8} {rest : Bytes} (hp : host.drop cm = b :: rest) (path cur pc R) :
-    hostKeyLoop host path cur [] cm pc R = hostNodeEnd host path cur cm pc b R := by
+    hostKeyLoop false host path cur [] cm pc R = hostNodeEnd false host path cur cm pc b R := by
   rw [hostKeyLoop]; simp only [hp]
 
 theorem hostKeyLoop_lit {host : Bytes} {cm : Nat} {b : UInt8} {rest : Bytes} (hp : host.drop cm = b :: rest) (path cur c k' pc R) :
-    hostKeyLoop host path cur (.lit c :: k') cm pc R =
-      if c = b ∧ b ≠ LBR then hostKeyLoop host path cur k' (cm + 1) pc R
-      else hostAfter host path cur (.lit c :: k') cm R := by
+    hostKeyLoop false host path cur (.lit c :: k') cm pc R =
+      if c = b ∧ b ≠ LBR then hostKeyLoop false host path cur k' (cm + 1) pc R
+      else hostAfter false host path cur (.lit c :: k') cm R := by
   rw [hostKeyLoop]; simp only [hp]
 
 theorem hostKeyLoop_param {host : Bytes} {cm : Nat} {b : UInt8} {rest : Bytes} (hp : host.drop cm = b :: rest) (path cur nm k' pc R) :
-    hostKeyLoop host path cur (.param nm :: k') cm pc R =
-      if segEnd DOT (b :: rest) = 0 then hostAfter host path cur (.param nm :: k') cm R
-      else hostKeyLoop host path cur k' (cm + segEnd DOT (b :: rest)) (pc + 1)
+    hostKeyLoop false host path cur (.param nm :: k') cm pc R =
+      if segEnd DOT (b :: rest) = 0 then hostAfter false host path cur (.param nm :: k') cm R
+      else hostKeyLoop false host path cur k' (cm + segEnd DOT (b :: rest)) (pc + 1)
         { R with params := R.params ++ [(nm, (b :: rest).take (segEnd DOT (b :: rest)))] } := by
-  rw [hostKeyLoop]; simp only [hp]
+  rw [hostKeyLoop]; simp only [hp]; rfl
 
 theorem hostKeyLoop_catch {host : Bytes} {cm : Nat} {b : UInt8} {rest : Bytes} (hp : host.drop cm = b :: rest) (path cur nm k' pc R) :
-    hostKeyLoop host path cur (.catchAll nm :: k') cm pc R = hostAfter host path cur (.catchAll nm :: k') cm R := by
+    hostKeyLoop false host path cur (.catchAll nm :: k') cm pc R = hostAfter false host path cur (.catchAll nm :: k') cm R := by
   rw [hostKeyLoop]; simp only [hp]
 
 theorem hostNodeEnd_eq (host path cur cm pc b R) :
-    hostNodeEnd host path cur cm pc b R =
+    hostNodeEnd false host path cur cm pc b R =
       (match hostStaticChild cur b with
        | none =>
          (match paramChild cur with
-          | some pc' => hostKeyLoop host path pc' pc'.key cm pc R
-          | none => hostAfter host path cur [] cm R)
-       | some sc => hostKeyLoop host path sc sc.key cm pc { R with skipNds := pushParam cur cm pc R.skipNds }) := by
+          | some pc' => hostKeyLoop false host path pc' pc'.key cm pc R
+          | none => hostAfter false host path cur [] cm R)
+       | some sc => hostKeyLoop false host path sc sc.key cm pc { R with skipNds := pushParam cur cm pc R.skipNds }) := by
   rw [hostNodeEnd]
   split
   · rename_i hs; rw [hs]; simp only []
@@ -120,21 +120,21 @@ theorem hostNodeEnd_eq (host path cur cm pc b R) :
   · rename_i sc hs; rw [hs]
 
 theorem hostAfter_eq (host path cur k cm R) :
-    hostAfter host path cur k cm R =
+    hostAfter false host path cur k cm R =
       if (host.drop cm).isEmpty && k.isEmpty then
         match cur.children.find? (fun c => firstByte c.key == SLASH) with
-        | none => hostBacktrack host path R
+        | none => hostBacktrack false host path R
         | some c =>
           match lookupByPath c path [] with
-          | .none => hostBacktrack host path R
-          | .found r sps true => hostBacktrack host path (setTsr R (some r) (R.params ++ sps))
+          | .none => hostBacktrack false host path R
+          | .found r sps true => hostBacktrack false host path (setTsr R (some r) (R.params ++ sps))
           | .found r sps false => .found r (R.params ++ sps) false
           | .bad => .bad
-      else hostBacktrack host path R := by
+      else hostBacktrack false host path R := by
   rw [hostAfter]
   all_goals (try rfl)
 
-theorem hostBacktrack_nil {R : Regs} (h : R.skipNds = []) (host path) : hostBacktrack host path R = fin R.tsr := by
+theorem hostBacktrack_nil {R : Regs} (h : R.skipNds = []) (host path) : hostBacktrack false host path R = fin R.tsr := by
   rw [hostBacktrack]; split
   · cases ht : R.tsr with
     | none => rfl
@@ -142,7 +142,7 @@ theorem hostBacktrack_nil {R : Regs} (h : R.skipNds = []) (host path) : hostBack
   · rename_i f st h'; rw [h] at h'; cases h'
 
 theorem hostBacktrack_cons {R : Regs} {f : Frame} {st : List Frame} (h : R.skipNds = f :: st) (host path) :
-    hostBacktrack host path R = hostKeyLoop host path f.child f.child.key f.pathIndex f.paramCnt
+    hostBacktrack false host path R = hostKeyLoop false host path f.child f.child.key f.pathIndex f.paramCnt
       { R with skipNds := st, params := R.params.take f.paramCnt } := by
   rw [hostBacktrack]; split
   · rename_i h'; rw [h] at h'; cases h'
@@ -182,22 +182,22 @@ structure HInv (cur : Node) (k : List Tok) (pc : Nat) (R : Regs) : Prop where
 
 def Q1 (host path : Bytes) (cur : Node) (k : List Tok) (cm pc : Nat) (R : Regs) : Prop :=
   HInv cur k pc R →
-  hostKeyLoop host path cur k cm pc R =
+  hostKeyLoop false host path cur k cm pc R =
     pickC R.tsr (hostWalk cur k (host.drop cm) path R.params ++ hstackEvs host path R.params R.skipNds)
 
 def Q2 (host path : Bytes) (cur : Node) (cm pc : Nat) (b : UInt8) (R : Regs) : Prop :=
   HInv cur [] pc R → (∃ rest, host.drop cm = b :: rest) →
-  hostNodeEnd host path cur cm pc b R =
+  hostNodeEnd false host path cur cm pc b R =
     pickC R.tsr (hostWalk cur [] (host.drop cm) path R.params ++ hstackEvs host path R.params R.skipNds)
 
 def Q3 (host path : Bytes) (cur : Node) (k : List Tok) (cm : Nat) (R : Regs) : Prop :=
   wfKids cur.children = true → stackOk R.params.length R.skipNds →
-  hostAfter host path cur k cm R =
+  hostAfter false host path cur k cm R =
     pickC R.tsr (hpostEvs host path cur k cm R.params ++ hstackEvs host path R.params R.skipNds)
 
 def Q4 (host path : Bytes) (R : Regs) : Prop :=
   stackOk R.params.length R.skipNds →
-  hostBacktrack host path R = pickC R.tsr (hstackEvs host path R.params R.skipNds)
+  hostBacktrack false host path R = pickC R.tsr (hstackEvs host path R.params R.skipNds)
 
 theorem wfNode_hinv {c : Node} (h : wfNode c = true) {pc : Nat} {R : Regs} (hc : pc = R.params.length)
     (hs : stackOk R.params.length R.skipNds) : HInv c c.key pc R := by
@@ -540,7 +540,7 @@ theorem hostMachine_refines_all (host path : Bytes) :
     (∀ cur cm pc b R, Q2 host path cur cm pc b R) ∧
     (∀ cur k cm R, Q3 host path cur k cm R) ∧
     (∀ R, Q4 host path R) := by
-  apply hostKeyLoop.mutual_induct host path (Q1 host path) (Q2 host path) (Q3 host path) (Q4 host path)
+  apply hostKeyLoop.mutual_induct false host path (Q1 host path) (Q2 host path) (Q3 host path) (Q4 host path)
   · exact fun cur k cm pc R hp ih => d01 host path cur k cm pc R hp ih
   · exact fun cur cm pc R b rest hp ih => d02 host path cur cm pc R b rest hp ih
   · exact fun cur cm pc R b rest hp c k' hc ih => d03 host path cur cm pc R b rest hp c k' hc ih
